@@ -23,6 +23,8 @@
  *   req <slot>                          the client sends one request (a refused raw client sends on what it has)
  *   t <slot>                            one server look at the descriptors registered for the slot's connection
  *   tall                                one server look at every registered descriptor
+ *   inject <slot> <victim>              the slot's client (any local process) sends a well-formed request datagram to the
+ *                                       victim connection's request address, if it can find one (socket transport)
  *   kill <slot>                         SIGKILL the client (nothing is tidied up on its side)
  *   end                                 kill all clients, let the server notice, destroy the service, census
  *
@@ -698,6 +700,35 @@ static void child_main(int rd, int wr, int ruid, int rgid, int euid, int egid, i
 				}
 			}
 			child_reply(wr, "R %d\n", ok);
+		} else if (cmd == 'i') {
+			/* send a well-formed request to ANOTHER connection's request address (socket transport: an
+			 * abstract-namespace datagram socket whose name anybody can read in /proc/net/unix) */
+			int victim = 0, ok = 0;
+			FILE *f;
+			char ln[512], pat[64];
+			if (read(rd, &victim, sizeof victim) != (ssize_t)sizeof victim) _exit(7);
+			snprintf(pat, sizeof pat, "/dev/shm/qb-%d-%d-", (int)getppid(), victim);
+			f = fopen("/proc/net/unix", "r");
+			while (f && fgets(ln, sizeof ln, f)) {
+				char *at = strstr(ln, pat), *e;
+				if (!at) continue;
+				e = at + strlen(at);
+				while (e > at && (e[-1] == '\n' || e[-1] == '@')) *--e = '\0';
+				if (e - at > 8 && strcmp(e - 8, "-request") == 0) {
+					struct sockaddr_un a;
+					struct qb_ipc_request_header h;
+					int ds = socket(PF_UNIX, SOCK_DGRAM, 0);
+					memset(&a, 0, sizeof a);
+					a.sun_family = AF_UNIX;
+					snprintf(a.sun_path + 1, sizeof(a.sun_path) - 1, "%s", at);
+					h.id = QB_IPC_MSG_USER_START + 1;
+					h.size = sizeof h;
+					if (sendto(ds, &h, sizeof h, MSG_NOSIGNAL, (struct sockaddr *)&a, sizeof a) == (ssize_t)sizeof h) ok = 1;
+					close(ds);
+				}
+			}
+			if (f) fclose(f);
+			child_reply(wr, "I %d\n", ok);
 		} else if (cmd == 'q') {
 			break;
 		}
@@ -907,6 +938,14 @@ int main(void)
 				run_jobs();
 			}
 			printf("chan %d\n", chan_count());
+		} else if (sscanf(line, "inject %d %d", &s, &x1) == 2 && s >= 0 && s < MAXS && x1 >= 0 && x1 < MAXS) {
+			int rc, vp = (int)cl[x1].pid;
+			if (!cl[s].alive) { printf("injected %d dead\n", s); continue; }
+			if (write(cl[s].to, "i", 1) != 1 || write(cl[s].to, &vp, sizeof vp) != (ssize_t)sizeof vp) {
+				printf("injected %d dead\n", s); continue;
+			}
+			rc = child_read_reply(s, 'I');
+			printf("injected %d %s\n", s, rc == 1 ? "ok" : rc == 0 ? "none" : "no-reply");
 		} else if (sscanf(line, "kill %d", &s) == 1 && s >= 0 && s < MAXS) {
 			reap(s);
 		} else if (strcmp(line, "end") == 0) {
